@@ -68,6 +68,24 @@ def gen_cases(tier, seed):
         for first in ('add', 'create'):
             yield {'scenario': 'release-interrupted', 'first': first,
                    'later': later}
+    for i in range(3 if tier == 'quick' else 48):
+        rng = random.Random(f'C02/scale/{seed}/{tier}/{i}')
+        case = {'classes': wl.gen_classes(rng, 6, wl.SHAPES),
+                'ids': list(range(1, 120)), 'allow_over': False, 'ops': []}
+        for k in range(100):
+            case['ops'].append(['create', rng.sample(range(6), 2),
+                                ['x', k]])
+        for k in rng.sample(range(100), 80):
+            case['ops'].append(['delete', ['x', k], False])
+            if rng.random() < 0.05:
+                case['ops'].append(['probe'])
+        if rng.random() < 0.5:
+            case['ops'].insert(150, ['enable', False])
+            case['ops'] += [['process', 1], ['enable', True]]
+        else:
+            case['ops'].append(['process', 1])
+        case['ops'] += [['probe'], ['clear'], ['probe']]
+        yield case
     n = 1500 if tier == 'quick' else 16 * 5000
     for i in range(n):
         yield gen_one(random.Random(f'C02/{seed}/{tier}/{i}'), tier, i)
